@@ -192,3 +192,683 @@ func derivesFromRand(v ssa.Value, d int) bool {
 	}
 	return false
 }
+
+// ---------- C01-R10: the request URL is edited, never replaced ----------
+func init() {
+	registerExtra("C01", extraC01URLReplace)
+}
+
+func extraC01URLReplace(c *Ctx, r *Report) {
+	r.Rule("C01-R10", "on the request path (handlers and proxy packages) the inbound request's URL is never replaced by a URL built from scratch: a store to http.Request.URL takes a copy of the previous URL (so RawQuery, and everything else the handler does not mean to change, survives); editing r.URL.Path in place is the normal form", 0)
+	n := 0
+	for _, f := range c.Funcs {
+		pp := fnPkgPath(f)
+		if !strings.HasSuffix(pp, pkgHandlers) && !strings.Contains(pp, "/adapter/proxy") && !strings.Contains(pp, "/app/middleware") {
+			continue
+		}
+		eachInstr(f, func(in ssa.Instruction) {
+			st, ok := in.(*ssa.Store)
+			if !ok || !isField(st.Addr, "net/http", "Request", "URL") {
+				return
+			}
+			// only requests the function received (not upstream requests it is building)
+			if fa, ok := st.Addr.(*ssa.FieldAddr); ok {
+				if _, fresh := resolveOrigin(c, fa.X, 4).(*ssa.Call); fresh {
+					return
+				}
+			}
+			n++
+			key := fname(f) + ":Request.URL="
+			copyOfOld := false
+			if al, ok := st.Val.(*ssa.Alloc); ok {
+				for _, ref := range *al.Referrers() {
+					if s2, ok := ref.(*ssa.Store); ok && s2.Addr == ssa.Value(al) {
+						if ld, ok := s2.Val.(*ssa.UnOp); ok && mentionsField(ld.X, "net/http", "Request", "URL", 2) {
+							copyOfOld = true
+						}
+					}
+				}
+			}
+			if copyOfOld {
+				r.OK("C01-R10", key, in.Pos(), "URL replaced by a copy of itself")
+			} else {
+				r.Bad("C01-R10", key, in.Pos(), "the request's URL is replaced by a freshly built one: the client's query string (and any other URL component) is dropped before the engines build the upstream URL")
+			}
+		})
+	}
+	if n == 0 {
+		r.Triv("C01-R10", "no-url-replacement", token.NoPos, "no function on the request path stores to Request.URL")
+	}
+	addMutants(Mutant{Prop: "C01", Name: "passthrough-replaces-url", File: "internal/app/handlers/handler_translation.go", Rule: "C01-R10",
+		Old: "	r.URL.Path = passthroughReq.TargetPath\n", New: "	r.URL = &url.URL{Path: passthroughReq.TargetPath}\n",
+		Edits: []Edit{{"internal/app/handlers/handler_translation.go", "	\"net/http\"\n", "	\"net/http\"\n	\"net/url\"\n"}}})
+}
+
+func init() {
+	// one dispatch per request on the translation routes: once the passthrough executor has dispatched, the handler
+	// returns (C14-R2). A second dispatch would append a second backend's response to a started one (C02) and would
+	// re-use a candidate snapshot that still lists endpoints the first dispatch has just marked offline (C03).
+	registerExtra("C02", func(c *Ctx, r *Report) {
+		r.WithAlias(map[string]string{"C14-R2": "C02-R7"}, func() { checkC14(c, r) })
+	})
+	registerExtra("C03", func(c *Ctx, r *Report) {
+		r.WithAlias(map[string]string{"C14-R2": "C03-R9"}, func() { checkC14(c, r) })
+	})
+}
+
+// ---------- C01-R11 / C02-R8: a pooled object is returned to its pool at most once ----------
+func init() {
+	registerExtra("C01", func(c *Ctx, r *Report) { extraPoolSinglePut(c, r, "C01-R11") })
+	registerExtra("C02", func(c *Ctx, r *Report) { extraPoolSinglePut(c, r, "C02-R8") })
+}
+
+func extraPoolSinglePut(c *Ctx, r *Report, rule string) {
+	r.Rule(rule, "an object taken from a pool is handed back at most once on every path: a function that defers pool.Put(x) performs no other Put of x, and no path passes two Puts of x (a double Put makes the pool hand the same buffer to two concurrent requests, whose bytes then mix)", 3)
+	for _, f := range c.Funcs {
+		if f.Parent() != nil || !c.inRepo(f) {
+			continue
+		}
+		var gets []*ssa.Call
+		eachInstr(f, func(in ssa.Instruction) {
+			if v, ok := isPoolGet(in); ok {
+				gets = append(gets, v.(*ssa.Call))
+			}
+		})
+		for gi, gv := range gets {
+			// aliases of the borrowed object inside f: the call result, type assertions and conversions of it
+			alias := map[ssa.Value]bool{gv: true}
+			for changed := true; changed; {
+				changed = false
+				eachInstr(f, func(in ssa.Instruction) {
+					v, ok := in.(ssa.Value)
+					if !ok || alias[v] {
+						return
+					}
+					switch x := in.(type) {
+					case *ssa.TypeAssert:
+						if alias[x.X] {
+							alias[v], changed = true, true
+						}
+					case *ssa.Extract:
+						if alias[x.Tuple] {
+							alias[v], changed = true, true
+						}
+					case *ssa.MakeInterface:
+						if alias[x.X] {
+							alias[v], changed = true, true
+						}
+					case *ssa.ChangeInterface:
+						if alias[x.X] {
+							alias[v], changed = true, true
+						}
+					case *ssa.Phi:
+						for _, e := range x.Edges {
+							if alias[e] {
+								alias[v], changed = true, true
+							}
+						}
+					}
+				})
+			}
+			var direct, deferred []ssa.Instruction
+			eachInstr(f, func(in ssa.Instruction) {
+				cc := getCall(in)
+				if cc == nil {
+					return
+				}
+				ci := describeCall(cc)
+				if ci.Name != "Put" || ci.Recv != "Pool" {
+					return
+				}
+				hit := false
+				for _, a := range cc.Args {
+					if alias[a] {
+						hit = true
+					}
+				}
+				if !hit {
+					return
+				}
+				if _, isDefer := in.(*ssa.Defer); isDefer {
+					deferred = append(deferred, in)
+				} else {
+					direct = append(direct, in)
+				}
+			})
+			if len(direct)+len(deferred) == 0 {
+				continue
+			}
+			key := fmt.Sprintf("%s:pool-single-put#%d", fname(f), gi)
+			bad := ""
+			if len(deferred) > 0 && len(direct) > 0 {
+				bad = "the object is put back by a deferred Put and also by an explicit Put at " + c.Pos(direct[0].Pos())
+			}
+			if len(deferred) > 1 {
+				bad = "two deferred Puts of the same object"
+			}
+			for i, a := range direct {
+				for j, b := range direct {
+					if i != j && reachAvoiding(a, b, nil) {
+						bad = "a path passes two explicit Puts of the same object (" + c.Pos(a.Pos()) + ", " + c.Pos(b.Pos()) + ")"
+					}
+				}
+				if inLoop(a.Block()) && !inLoop(gv.Block()) {
+					bad = "an explicit Put inside a loop can run more than once for one Get"
+				}
+			}
+			if bad != "" {
+				r.Bad(rule, key, gv.Pos(), bad+": the pool then holds the object twice and hands it to two concurrent users")
+			} else {
+				r.OK(rule, key, gv.Pos(), "at most one Put per Get on every path")
+			}
+		}
+	}
+	if rule == "C01-R11" {
+		addMutants(Mutant{Prop: "C01", Name: "double-put-stream-buffer", File: "internal/adapter/proxy/olla/service_retry.go", Rule: "C01-R11",
+			Old: "	stats.StreamingMs = time.Since(streamStart).Milliseconds()\n", New: "	if resp.StatusCode == http.StatusNoContent {\n		s.bufferPool.Put(buffer)\n	}\n	stats.StreamingMs = time.Since(streamStart).Milliseconds()\n"})
+	} else {
+		addMutants(Mutant{Prop: "C02", Name: "double-put-stream-buffer", File: "internal/adapter/proxy/olla/service_retry.go", Rule: "C02-R8",
+			Old: "	stats.StreamingMs = time.Since(streamStart).Milliseconds()\n", New: "	if resp.StatusCode == http.StatusNoContent {\n		s.bufferPool.Put(buffer)\n	}\n	stats.StreamingMs = time.Since(streamStart).Milliseconds()\n"})
+	}
+}
+
+// ---------- C19-R11 / C06-R7: clean-up never drops a gauge that is in use ----------
+func init() {
+	registerExtra("C19", func(c *Ctx, r *Report) { extraGaugeCleanup(c, r, "C19-R11") })
+	registerExtra("C06", func(c *Ctx, r *Report) { extraGaugeCleanup(c, r, "C06-R7") })
+}
+
+func extraGaugeCleanup(c *Ctx, r *Report, rule string) {
+	r.Rule(rule, "in the stats collector, code that removes endpoint entries in bulk (Delete on the endpoints map fed from a Range over it) selects an entry for removal only under the fact that its active-connection gauge is 0: an endpoint with attempts in flight keeps its gauge, whatever its last-used stamp says", 2)
+	n := 0
+	for _, f := range c.Funcs {
+		if f.Parent() != nil || !strings.HasSuffix(fnPkgPath(f), "internal/adapter/stats") {
+			continue
+		}
+		deletes := false
+		eachInstr(f, func(in ssa.Instruction) {
+			if cc := getCall(in); cc != nil && describeCall(cc).Name == "Delete" && len(cc.Args) > 0 && mentionsField(cc.Args[0], "internal/adapter/stats", "Collector", "endpoints", 3) {
+				deletes = true
+			}
+		})
+		if !deletes {
+			continue
+		}
+		for _, g := range f.AnonFuncs {
+			// a Range callback over the endpoint entries: its parameters include the entry pointer
+			var entry *ssa.Parameter
+			for _, p := range g.Params {
+				if isNamed(p.Type(), "internal/adapter/stats", "endpointData") {
+					entry = p
+				}
+			}
+			if entry == nil {
+				continue
+			}
+			eachInstr(g, func(in ssa.Instruction) {
+				call, ok := in.(*ssa.Call)
+				if !ok {
+					return
+				}
+				bi, ok := call.Call.Value.(*ssa.Builtin)
+				if !ok || bi.Name() != "append" {
+					return
+				}
+				n++
+				key := fmt.Sprintf("%s:removal-candidate", fname(g))
+				guarded := false
+				for _, cf := range normFacts(condFacts(in.Block())) {
+					bo, ok := cf.Cond.(*ssa.BinOp)
+					if !ok {
+						continue
+					}
+					for _, pair := range [][2]ssa.Value{{bo.X, bo.Y}, {bo.Y, bo.X}} {
+						k, isK := constInt(pair[1])
+						if !isK || k != 0 {
+							continue
+						}
+						isGauge := false
+						if li, ok := pair[0].(ssa.Instruction); ok {
+							if kind, o, fld, _, isA := atomicFieldCall(li); isA && kind == "load" && cfield(o, fld) == "activeConnections" {
+								isGauge = true
+							}
+						}
+						if mentionsField(pair[0], "internal/adapter/stats", "endpointData", "activeConnections", 2) {
+							isGauge = true
+						}
+						if isGauge && ((bo.Op == token.EQL && cf.True) || (bo.Op == token.NEQ && !cf.True) || (bo.Op == token.GTR && !cf.True) || (bo.Op == token.LEQ && cf.True)) {
+							guarded = true
+						}
+					}
+				}
+				if guarded {
+					r.OK(rule, key, in.Pos(), "entry selected for removal only when its gauge is 0")
+				} else {
+					r.Bad(rule, key, in.Pos(), "the clean-up can select an endpoint entry for removal while its active-connection gauge is non-zero: the attempts in flight vanish from GetConnectionStats (and least-connections routing prefers the busy endpoint)")
+				}
+			})
+		}
+	}
+	if n == 0 {
+		r.Undecided(rule, "collector-cleanup", token.NoPos, "no Range callback selecting endpoint entries for removal was found next to a Delete on the endpoints map")
+	}
+	if rule == "C19-R11" {
+		addMutants(Mutant{Prop: "C19", Name: "cleanup-drops-busy-entries", File: "internal/adapter/stats/collector.go", Rule: "C19-R11",
+			Old: "if atomic.LoadInt64(&data.lastUsed) < cutoff && atomic.LoadInt64(&data.activeConnections) == 0 {", New: "if atomic.LoadInt64(&data.lastUsed) < cutoff {"})
+	} else {
+		addMutants(Mutant{Prop: "C06", Name: "cleanup-drops-busy-entries", File: "internal/adapter/stats/collector.go", Rule: "C06-R7",
+			Old: "if atomic.LoadInt64(&data.lastUsed) < cutoff && atomic.LoadInt64(&data.activeConnections) == 0 {", New: "if atomic.LoadInt64(&data.lastUsed) < cutoff {"})
+	}
+}
+
+// ---------- C07-R8 / C03-R10: one key function for the endpoint repository ----------
+func init() {
+	registerExtra("C07", func(c *Ctx, r *Report) { extraRepoKey(c, r, "C07-R8"); extraStartCtx(c, r) })
+	registerExtra("C03", func(c *Ctx, r *Report) { extraRepoKey(c, r, "C03-R10") })
+}
+
+// keyChain: the chain of functions applied to obtain a map key, outermost first (String, endpointKey∘String, …).
+func keyChain(v ssa.Value, d int) string {
+	var names []string
+	for i := 0; i < d && v != nil; i++ {
+		switch x := v.(type) {
+		case *ssa.Call:
+			ci := describeCall(&x.Call)
+			names = append(names, ci.Name)
+			if x.Call.IsInvoke() {
+				v = x.Call.Value
+			} else if len(x.Call.Args) > 0 {
+				v = x.Call.Args[0]
+			} else {
+				v = nil
+			}
+		case *ssa.Phi:
+			if len(x.Edges) > 0 {
+				v = x.Edges[0]
+			} else {
+				v = nil
+			}
+		case *ssa.UnOp:
+			if al, ok := x.X.(*ssa.Alloc); ok && x.Op == token.MUL {
+				if st := cellStores(al); len(st) == 1 {
+					v = st[0]
+					continue
+				}
+			}
+			if _, f, ok := fieldOf(x.X); ok && x.Op == token.MUL {
+				if f.Name() == "URLString" {
+					names = append(names, "String") // Endpoint.URLString caches URL.String()
+				}
+			}
+			v = nil
+		case *ssa.ChangeType:
+			v = x.X
+		case *ssa.Convert:
+			v = x.X
+		default:
+			v = nil
+		}
+	}
+	return strings.Join(names, "∘")
+}
+
+func extraRepoKey(c *Ctx, r *Report, rule string) {
+	r.Rule(rule, "every access to the endpoint repository's map (lookups in Exists / UpdateEndpoint, the map built by LoadFromConfig) derives its key by the same chain of functions from the endpoint URL: a normalisation applied when storing but not when looking up makes the health checker's `Exists` guard fail and every check result is dropped (the endpoint never becomes healthy, or never leaves rotation)", 1)
+	chains := map[string][]string{}
+	pos := map[string]token.Pos{}
+	for _, f := range c.Funcs {
+		if !strings.HasSuffix(fnPkgPath(f), "internal/adapter/discovery") || strings.Contains(fname(f), "Test") {
+			continue
+		}
+		if f.Signature.Recv() == nil || !isNamed(f.Signature.Recv().Type(), "internal/adapter/discovery", "StaticEndpointRepository") {
+			continue
+		}
+		isRepoMap := func(m ssa.Value) bool {
+			if mentionsField(m, "internal/adapter/discovery", "StaticEndpointRepository", "endpoints", 2) {
+				return true
+			}
+			// a map built locally and then stored into the field
+			if mk, ok := m.(*ssa.MakeMap); ok {
+				for _, ref := range *mk.Referrers() {
+					if st, ok := ref.(*ssa.Store); ok && isField(st.Addr, "internal/adapter/discovery", "StaticEndpointRepository", "endpoints") {
+						return true
+					}
+				}
+			}
+			return false
+		}
+		eachInstr(f, func(in ssa.Instruction) {
+			var key ssa.Value
+			switch x := in.(type) {
+			case *ssa.Lookup:
+				if isRepoMap(x.X) {
+					key = x.Index
+				}
+			case *ssa.MapUpdate:
+				if isRepoMap(x.Map) {
+					key = x.Key
+				}
+			}
+			if key == nil {
+				return
+			}
+			ch := keyChain(key, 6)
+			chains[ch] = append(chains[ch], fname(f))
+			if _, ok := pos[ch]; !ok {
+				pos[ch] = in.Pos()
+			}
+		})
+	}
+	key := "StaticEndpointRepository:map-key-function"
+	switch {
+	case len(chains) == 0:
+		r.Undecided(rule, key, token.NoPos, "no keyed access to the repository's endpoint map found")
+	case len(chains) == 1:
+		for ch, fs := range chains {
+			r.OK(rule, key, pos[ch], fmt.Sprintf("all %d accesses key the map by %s(url)", len(fs), ch))
+		}
+	default:
+		var parts []string
+		for _, ch := range sortedKeys(chains) {
+			parts = append(parts, fmt.Sprintf("%s in %s", ch, strings.Join(chains[ch], ", ")))
+		}
+		var p token.Pos
+		for _, v := range pos {
+			p = v
+		}
+		r.Bad(rule, key, p, "the repository's endpoint map is keyed by different functions of the URL ("+strings.Join(parts, "; ")+"): an endpoint stored under one key is not found under the other, so status updates for it are silently dropped")
+	}
+	if rule == "C07-R8" {
+		addMutants(Mutant{Prop: "C07", Name: "repo-key-normalised-on-store-only", File: "internal/adapter/discovery/repository.go", Rule: "C07-R8",
+			Old: "	key := endpoint.URL.String()\n	existing, exists := r.endpoints[key]", New: "	key := strings.TrimSuffix(endpoint.URL.String(), \"/\")\n	existing, exists := r.endpoints[key]",
+			Edits: []Edit{{"internal/adapter/discovery/repository.go", "	\"net/url\"\n", "	\"net/url\"\n	\"strings\"\n"}}})
+	}
+}
+
+// ---------- C07-R9: the health loop is not started under a context the starter cancels ----------
+func extraStartCtx(c *Ctx, r *Report) {
+	r.Rule("C07-R9", "the context handed to HealthChecker.StartChecking (it drives the background check loop for the life of the process) is the caller's own context parameter or context.Background — never a context.WithTimeout/WithCancel/WithDeadline created in the calling function, whose cancel (deferred or explicit) would stop the loop as soon as start-up finishes", 1)
+	n := 0
+	for _, f := range c.Funcs {
+		if !c.inRepo(f) {
+			continue
+		}
+		eachInstr(f, func(in ssa.Instruction) {
+			cc := getCall(in)
+			if cc == nil {
+				return
+			}
+			name := ""
+			if cc.IsInvoke() {
+				name = cc.Method.Name()
+			} else if sc := cc.StaticCallee(); sc != nil {
+				name = sc.Name()
+			}
+			if name != "StartChecking" {
+				return
+			}
+			var ctxArg ssa.Value
+			for _, a := range cc.Args {
+				if isNamed(a.Type(), "context", "Context") {
+					ctxArg = a
+				}
+			}
+			if ctxArg == nil {
+				return
+			}
+			n++
+			key := fname(f) + ":StartChecking-context"
+			derived := ""
+			var walk func(v ssa.Value, d int)
+			walk = func(v ssa.Value, d int) {
+				if v == nil || d == 0 {
+					return
+				}
+				switch x := v.(type) {
+				case *ssa.Extract:
+					walk(x.Tuple, d-1)
+				case *ssa.Call:
+					ci := describeCall(&x.Call)
+					if ci.Pkg == "context" && (strings.HasPrefix(ci.Name, "WithTimeout") || strings.HasPrefix(ci.Name, "WithCancel") || strings.HasPrefix(ci.Name, "WithDeadline")) {
+						derived = ci.Name
+					}
+				case *ssa.Phi:
+					for _, e := range x.Edges {
+						walk(e, d-1)
+					}
+				case *ssa.UnOp:
+					if al, ok := x.X.(*ssa.Alloc); ok {
+						for _, s := range cellStores(al) {
+							walk(s, d-1)
+						}
+					}
+				case *ssa.ChangeInterface:
+					walk(x.X, d-1)
+				case *ssa.MakeInterface:
+					walk(x.X, d-1)
+				}
+			}
+			walk(ctxArg, 6)
+			if derived != "" {
+				r.Bad("C07-R9", key, in.Pos(), "the background health loop is started under a context created by context."+derived+" in the same function: when that function cancels it (deferred cancel after start-up) the loop exits and no endpoint is ever probed again")
+			} else {
+				r.OK("C07-R9", key, in.Pos(), "loop context is not a locally created cancellable context")
+			}
+		})
+	}
+	if n == 0 {
+		r.Unresolved("C07-R9", "call of HealthChecker.StartChecking")
+	}
+	addMutants(Mutant{Prop: "C07", Name: "health-loop-under-startup-context", File: "internal/app/services/discovery.go", Rule: "C07-R9",
+		Old: "	if err := s.healthChecker.StartChecking(ctx); err != nil {", New: "	ctx, cancelStart := context.WithCancel(ctx)\n	defer cancelStart()\n	if err := s.healthChecker.StartChecking(ctx); err != nil {"})
+}
+
+// ---------- C08-R10: breaker state is forgotten only at shutdown (or when closed and stale) ----------
+func init() { registerExtra("C08", extraC08Registry) }
+
+func extraC08Registry(c *Ctx, r *Report) {
+	r.Rule("C08-R10", "the olla engine's per-endpoint breaker registry is emptied (Clear) only from shutdown entry points, and a single breaker is dropped (Delete) only under the fact that it is closed: an open breaker must keep holding until its timeout, whatever else (a configuration reload, a clean-up pass) happens meanwhile", 2)
+	const pkg = "internal/adapter/proxy/olla"
+	callers := map[*ssa.Function][]*ssa.Function{}
+	for _, f := range c.Funcs {
+		eachInstr(f, func(in ssa.Instruction) {
+			if cc := getCall(in); cc != nil {
+				if sc := cc.StaticCallee(); sc != nil && c.inRepo(sc) {
+					callers[sc] = append(callers[sc], topParent(f))
+				}
+			}
+		})
+	}
+	roots := func(f *ssa.Function) []*ssa.Function {
+		seen := map[*ssa.Function]bool{}
+		var out []*ssa.Function
+		var walk func(g *ssa.Function)
+		walk = func(g *ssa.Function) {
+			if seen[g] {
+				return
+			}
+			seen[g] = true
+			if len(callers[g]) == 0 {
+				out = append(out, g)
+				return
+			}
+			for _, h := range callers[g] {
+				walk(h)
+			}
+		}
+		walk(topParent(f))
+		return out
+	}
+	n := 0
+	for _, f := range c.Funcs {
+		if !strings.HasSuffix(fnPkgPath(f), pkg) {
+			continue
+		}
+		eachInstr(f, func(in ssa.Instruction) {
+			cc := getCall(in)
+			if cc == nil || len(cc.Args) == 0 || !mentionsField(cc.Args[0], pkg, "Service", "circuitBreakers", 3) {
+				return
+			}
+			name := describeCall(cc).Name
+			switch name {
+			case "Clear":
+				n++
+				key := fname(f) + ":breakers.Clear"
+				var bad []string
+				for _, rt := range roots(f) {
+					nm := rt.Name()
+					if nm != "Cleanup" && nm != "Shutdown" && nm != "Close" && !strings.HasPrefix(nm, "Stop") {
+						bad = append(bad, fname(rt))
+					}
+				}
+				if len(bad) > 0 {
+					r.Bad("C08-R10", key, in.Pos(), "every breaker (open ones included) is forgotten on a path that is not shutdown — reachable from "+strings.Join(bad, ", ")+": an endpoint whose breaker was open is contacted again at once with a fresh, closed breaker")
+				} else {
+					r.OK("C08-R10", key, in.Pos(), "registry emptied only from shutdown entry points")
+				}
+			case "Delete":
+				n++
+				key := fname(f) + ":breakers.Delete"
+				closed := false
+				for _, cf := range normFacts(condFacts(in.Block())) {
+					bo, ok := cf.Cond.(*ssa.BinOp)
+					if !ok || bo.Op != token.EQL || !cf.True {
+						continue
+					}
+					for _, pair := range [][2]ssa.Value{{bo.X, bo.Y}, {bo.Y, bo.X}} {
+						k, isK := constInt(pair[1])
+						if !isK || k != 0 {
+							continue
+						}
+						if li, ok := pair[0].(ssa.Instruction); ok {
+							if kind, o, fld, _, isA := atomicFieldCall(li); isA && kind == "load" && cfield(o, fld) == "state" {
+								closed = true
+							}
+						}
+					}
+				}
+				if closed {
+					r.OK("C08-R10", key, in.Pos(), "a breaker is dropped only when it is closed")
+				} else {
+					r.Bad("C08-R10", key, in.Pos(), "a breaker can be dropped from the registry while it is open or half-open: its hold is lost and the endpoint is contacted again with a fresh breaker")
+				}
+			}
+		})
+	}
+	if n == 0 {
+		r.Undecided("C08-R10", "olla-breaker-registry", token.NoPos, "no Clear/Delete on the olla engine's breaker registry found")
+	}
+	addMutants(Mutant{Prop: "C08", Name: "reload-forgets-breakers", File: "internal/adapter/proxy/olla/service.go", Rule: "C08-R10",
+		Old: "	// Update configuration atomically\n	s.configuration = newConfig\n", New: "	// Update configuration atomically\n	s.configuration = newConfig\n	s.circuitBreakers.Clear()\n"})
+}
+
+// ---------- C08-R11: the outcome of a breaker-managed call is recorded by that call alone ----------
+func init() { registerExtra("C08", extraC08NoSecondRecord) }
+
+func extraC08NoSecondRecord(c *Ctx, r *Report) {
+	r.Rule("C08-R11", "a function that manages its breaker itself (asks Allow/IsOpen and records the outcome) is the only place that outcome is recorded: on the error branch of a call to it, the caller records nothing on that breaker (or its manager) — the error may be the breaker's own refusal, which must not count as a failure, re-stamp the last-failure time or re-open a half-open breaker", 1)
+	// managers: functions that both ask permission and record
+	isAsk := func(in ssa.Instruction) bool {
+		cc := getCall(in)
+		if cc == nil {
+			return false
+		}
+		n := describeCall(cc).Name
+		sc := cc.StaticCallee()
+		return (n == "Allow" || n == "IsOpen") && sc != nil && c.inRepo(sc)
+	}
+	isRecord := func(in ssa.Instruction) bool {
+		cc := getCall(in)
+		if cc == nil {
+			return false
+		}
+		n := describeCall(cc).Name
+		sc := cc.StaticCallee()
+		return (n == "RecordFailure" || n == "RecordSuccess") && sc != nil && c.inRepo(sc) && sc.Signature.Recv() != nil &&
+			(strings.Contains(recvTypeName(sc.Signature.Recv().Type()), "ircuitBreaker") || strings.Contains(recvTypeName(sc.Signature.Recv().Type()), "EndpointManager"))
+	}
+	var managers []*ssa.Function
+	for _, f := range c.Funcs {
+		if f.Parent() != nil || !c.inRepo(f) {
+			continue
+		}
+		ask, rec := false, false
+		eachInstr(f, func(in ssa.Instruction) {
+			if isAsk(in) {
+				ask = true
+			}
+			if isRecord(in) {
+				rec = true
+			}
+		})
+		if ask && rec {
+			managers = append(managers, f)
+		}
+	}
+	n := 0
+	for _, m := range managers {
+		for _, g := range c.Funcs {
+			if !c.inRepo(g) {
+				continue
+			}
+			eachInstr(g, func(in ssa.Instruction) {
+				call, ok := in.(*ssa.Call)
+				if !ok || call.Call.StaticCallee() != m {
+					return
+				}
+				// the call's error result
+				var errV ssa.Value
+				if call.Type().String() == "error" {
+					errV = call
+				}
+				for _, ref := range *call.Referrers() {
+					if ex, ok := ref.(*ssa.Extract); ok && ex.Type().String() == "error" {
+						errV = ex
+					}
+				}
+				if errV == nil {
+					return
+				}
+				n++
+				key := fmt.Sprintf("%s→%s:no-second-record", fname(g), m.Name())
+				var bad ssa.Instruction
+				for _, ref := range *errV.Referrers() {
+					bo, ok := ref.(*ssa.BinOp)
+					if !ok || bo.Op != token.NEQ || !isNilConst(bo.Y) {
+						continue
+					}
+					for _, r2 := range *bo.Referrers() {
+						ifi, ok := r2.(*ssa.If)
+						if !ok {
+							continue
+						}
+						tb := ifi.Block().Succs[0]
+						if len(tb.Preds) != 1 {
+							continue
+						}
+						for _, rb := range g.Blocks {
+							if !tb.Dominates(rb) {
+								continue
+							}
+							for _, i2 := range rb.Instrs {
+								if isRecord(i2) {
+									bad = i2
+								}
+							}
+						}
+					}
+				}
+				if bad != nil {
+					r.Bad("C08-R11", key, bad.Pos(), "the caller records an outcome on the error branch of a call that manages the breaker itself: a request the open breaker refused is booked as a failure (last-failure time re-stamped, half-open breaker re-opened), and a genuine failure is counted twice")
+				} else {
+					r.OK("C08-R11", key, in.Pos(), "no outcome recorded by the caller on the error branch")
+				}
+			})
+		}
+	}
+	if n == 0 {
+		r.Triv("C08-R11", "breaker-managers", token.NoPos, "no statically called function manages a breaker itself")
+	}
+	addMutants(Mutant{Prop: "C08", Name: "caller-records-managers-error", File: "internal/adapter/unifier/lifecycle_unifier.go", Rule: "C08-R11",
+		Old: "	_, unifyErr := u.UnifyModels(ctx, discoveredModels, endpoint)\n	if unifyErr != nil {\n", New: "	_, unifyErr := u.UnifyModels(ctx, discoveredModels, endpoint)\n	if unifyErr != nil {\n		u.endpointManager.RecordFailure(endpointURL, unifyErr)\n"})
+}
